@@ -16,9 +16,10 @@ func init() {
 		ID:    "C06",
 		Title: "Every accepted change is rebroadcast to every live ancestor",
 		Explanation: "Structural necessary conditions of the rebroadcast (DESIGN.md §3/C06): R1 on the success edge of each point writer the bus handler calls the upstream walker with the decoded ids and the very slice decoded from the message, before acknowledging; " +
-			"R2 each walker publishes up.<ancestor>.<node>[.<parent>] with its points parameter on every entry, obtains the parents of the ancestor with includeDeleted=false (node points) / true (edge points) and recurses once per parent with the remaining parameters unchanged; " +
+			"R2 each walker publishes up.<ancestor>.<node>[.<parent>] with its points parameter on every entry, obtains the parents of the ancestor with includeDeleted=false (node points) / true (edge points) and recurses once per parent with the remaining parameters unchanged; recursion started with `go` in the loop does not read a loop variable shared by all iterations (language version of the file < 1.22) and is waited for (sync.WaitGroup Add/Done/Wait) before every return; " +
 			"R3 the parent lookup returns the upper end of every edge into the node iff includeDeleted or the edge's tombstone value is even (enumerated over includeDeleted x tombstone in {0,1}); " +
-			"R4 the subject layout written by the walkers is the layout read by the subject decoders. NATS delivery and graph content are not decided.",
+			"R4 the subject layout written by the walkers is the layout read by the subject decoders; " +
+			"R5 the list the parent lookup returns is not backed by a receiver/parameter field or a package-level variable (traced through locals, slicing, append and store helpers) unless every walker copies it before it recurses inside its loop over it. NATS delivery and graph content are not decided.",
 		Assumptions: []string{
 			"NATS delivers published messages to matching subscribers at least once",
 			"tombstone edge points carry the documented values (even = live, odd = deleted); enumerated at 0 and 1",
@@ -350,7 +351,7 @@ func findUpFunc(c *kit.Ctx, m *storeModel) *kit.Func {
 func runC06(c *kit.Ctx) {
 	m := newStoreModel(c)
 	r1 := c.Rule("R1", "handler: walker with decoded arguments before the ack", 4)
-	r2 := c.Rule("R2", "walker shape: publish, parents, recursion", 6)
+	r2 := c.Rule("R2", "walker shape: publish, parents, recursion", 10)
 	r3 := c.Rule("R3", "parent lookup filter truth table", 5)
 	r4 := c.Rule("R4", "subject layout agreement", 6)
 	r5 := c.Rule("R5", "parents list has storage of its own", 1)
@@ -537,7 +538,9 @@ func directlyContains(f *kit.Func, target *ast.CallExpr) bool {
 	return false
 }
 
-func c06WalkerShape(c *kit.Ctx, m *storeModel, r2 *kit.Rule, w *walker, upf *kit.Func) {
+// c06WalkerShape judges one walker (R2) and reports what it found out about the
+// walker's loop over the parents (for R5).
+func c06WalkerShape(c *kit.Ctx, m *storeModel, r2 *kit.Rule, w *walker, upf *kit.Func) *walkLoop {
 	wrapper := w.f
 	f := w.f
 	if w.rec != nil {
@@ -545,6 +548,7 @@ func c06WalkerShape(c *kit.Ctx, m *storeModel, r2 *kit.Rule, w *walker, upf *kit
 		f = w.rec
 		c.Analysed(w.rec)
 	}
+	wl := &walkLoop{w: w, f: f}
 	info := f.Info()
 	kind := "node-points"
 	wantDel := false
@@ -557,7 +561,7 @@ func c06WalkerShape(c *kit.Ctx, m *storeModel, r2 *kit.Rule, w *walker, upf *kit
 
 	if w.points == nil || (w.rec == nil && len(w.strs) != w.verbs) || (w.rec != nil && len(w.otherIDs)+1 != w.verbs) {
 		oPub.Undecided("walker has %d string parameters for %d subject tokens, points parameter found=%v", len(w.strs), w.verbs, w.points != nil)
-		return
+		return wl
 	}
 	// ancestor role: the string parameter passed to the parent lookup
 	var upCall *ast.CallExpr
@@ -568,7 +572,7 @@ func c06WalkerShape(c *kit.Ctx, m *storeModel, r2 *kit.Rule, w *walker, upf *kit
 	}
 	if upCall == nil || len(upCall.Args) != 2 {
 		oUp.Violation("walker never asks the parent lookup %s for the parents of the current ancestor", upf.Name)
-		return
+		return wl
 	}
 	for _, p := range w.strs {
 		if kit.ObjOf(info, upCall.Args[0]) == p {
@@ -577,7 +581,7 @@ func c06WalkerShape(c *kit.Ctx, m *storeModel, r2 *kit.Rule, w *walker, upf *kit
 	}
 	if w.ancestor == nil {
 		oUp.Violation("parent lookup is called with `%s`, not with a parameter of the walker", f.Str(upCall.Args[0]))
-		return
+		return wl
 	}
 	// includeDeleted handed through from the wrapper (argument or receiver field): its value is what the wrapper supplies
 	inclExpr, inclF := w.inWrapper(upCall.Args[1])
@@ -637,7 +641,7 @@ func c06WalkerShape(c *kit.Ctx, m *storeModel, r2 *kit.Rule, w *walker, upf *kit
 			if b, ok := p.Type().Underlying().(*types.Basic); ok && b.Kind() == types.String {
 				if first && types.Object(p) != startObj {
 					oPub.Violation("%s starts the walk at `%v`, expected its first id parameter `%s`", wrapper.Name, startObj, p.Name())
-					return
+					return wl
 				}
 				if !first {
 					exp = append(exp, p)
@@ -649,7 +653,7 @@ func c06WalkerShape(c *kit.Ctx, m *storeModel, r2 *kit.Rule, w *walker, upf *kit
 	ids := w.tokens[1:]
 	if len(ids) != len(exp) {
 		oPub.Violation("subject has %d tokens after \"up\", walker has %d id parameters", len(ids), len(exp))
-		return
+		return wl
 	}
 	for i, t := range ids {
 		if t.obj != types.Object(exp[i]) {
@@ -658,7 +662,7 @@ func c06WalkerShape(c *kit.Ctx, m *storeModel, r2 *kit.Rule, w *walker, upf *kit
 				got = t.obj.Name()
 			}
 			oPub.Violation("subject token %d is `%s`, expected parameter `%s`", i+1, got, exp[i].Name())
-			return
+			return wl
 		}
 	}
 	isPublish := func(call *ast.CallExpr) bool {
@@ -683,46 +687,260 @@ func c06WalkerShape(c *kit.Ctx, m *storeModel, r2 *kit.Rule, w *walker, upf *kit
 	}
 	// flow: publish before any return; loop iterations each self-call
 	var upsVar types.Object
+	var upAssign ast.Node
 	if as, ok := c.P.Parent(f.File, upCall).(*ast.AssignStmt); ok && len(as.Lhs) > 0 {
-		upsVar = kit.ObjOf(info, as.Lhs[0])
+		upsVar, upAssign = kit.ObjOf(info, as.Lhs[0]), as
 	}
+	// the loop may run over a private copy of the list (append([]string(nil), ups...), slices.Clone)
+	pl := c06Parents(f, upsVar, upAssign)
+	for _, rs := range f.SliceLoops(f.Body) {
+		if ok, copied := pl.ranges(rs); ok {
+			wl.loop, wl.copied = rs, copied
+		}
+	}
+	// recursion in function literals: run in place (`func(){…}()`, part of the loop
+	// body), started with `go` (followed below), or out of reach (stored, handed on, deferred)
+	sites := c06RecSites(f)
+	outOfReach := ""
+	for _, s := range sites {
+		if wl.loop != nil && wl.loop.Body.Pos() <= s.call.Pos() && s.call.End() <= wl.loop.Body.End() {
+			wl.recInLoop = true
+		}
+		for _, l := range s.lits {
+			if l.how != "call" && l.how != "go" {
+				outOfReach = "the recursive call at " + f.At(s.call) + " sits in a function literal that is " + map[string]string{"defer": "deferred", "value": "stored or handed on"}[l.how] + "; when it runs is not followed"
+			}
+		}
+	}
+	var loopAt ast.Node = w.sprintf
+	if wl.loop != nil {
+		loopAt = wl.loop
+	}
+	oIter := r2.Ob(wrapper, loopAt, kind+" walker: parent of the iteration", "each iteration's recursion uses that iteration's parent (no goroutine reads a loop variable that is shared by all iterations)")
+	oJoin := r2.Ob(wrapper, loopAt, kind+" walker: done before return", "the ancestors are told before the walker returns (and the handler acks): recursion started in goroutines is waited for on every path")
+
 	st := &kit.Std{F: f}
 	loops := map[string]*ast.RangeStmt{}
 	var missedIter, badSelf string
+	// parameters of a literal run in place or started with `go` stand for the arguments given to it
+	litBind := map[types.Object]ast.Expr{}
+	// copyOf: what a local of f that is assigned exactly once, from a plain variable, is a copy of
+	copyOf := func(o types.Object) ast.Expr {
+		var def ast.Expr
+		n := 0
+		ast.Inspect(f.Body, func(x ast.Node) bool {
+			if as, ok := x.(*ast.AssignStmt); ok {
+				for i, l := range as.Lhs {
+					if kit.ObjOf(info, l) == o {
+						n++
+						if len(as.Lhs) == len(as.Rhs) {
+							def = as.Rhs[i]
+						}
+					}
+				}
+			}
+			return true
+		})
+		if id, ok := ast.Unparen(def).(*ast.Ident); ok && n == 1 && kit.ObjOf(info, id) != o {
+			return id
+		}
+		return nil
+	}
+	resolve := func(e ast.Expr) ast.Expr {
+		for i := 0; i < 6; i++ {
+			o := kit.ObjOf(info, e)
+			if o == nil {
+				break
+			}
+			if a, ok := litBind[o]; ok {
+				e = a
+			} else if a := copyOf(o); a != nil && litBind[kit.ObjOf(info, a)] != nil {
+				// q := p inside the literal, p its parameter
+				e = a
+			} else {
+				break
+			}
+		}
+		return e
+	}
+	selfCall := func(call *ast.CallExpr, s kit.S) {
+		// args: (rangevar, other params unchanged, points)
+		params := f.Params()
+		if len(call.Args) != len(params) {
+			badSelf = "self-call has a different arity"
+			return
+		}
+		for i, p := range params {
+			arg := resolve(call.Args[i])
+			ao := kit.ObjOf(info, arg)
+			if p == w.ancestor {
+				lp := loops[s.Get("rv")]
+				if lp == nil || !(kit.LoopElem(info, lp, arg) || (ao != nil && kit.ElemAliases(info, lp)[ao])) {
+					badSelf = "self-call does not pass the current parent (element of the loop over the parents) as ancestor, got `" + f.Str(call.Args[i]) + "`"
+				}
+			} else if ao != p {
+				badSelf = "self-call passes `" + f.Str(call.Args[i]) + "` for parameter `" + p.Name() + "` (must be forwarded unchanged)"
+			}
+		}
+	}
+	// goroutines: which WaitGroup they are registered with, signal and are waited for
+	var joinBad, joinUndec string
+	goSeen, outlive := false, false
+	wgName := ""
+	wgID := func(call *ast.CallExpr) string {
+		o := c06WaitGroupOf(info, call, resolve)
+		if o == nil {
+			joinUndec = "`" + f.Str(call) + "` works on a WaitGroup that is not a local variable of the walker"
+			return ""
+		}
+		wgName = o.Name()
+		return kit.VarID(o)
+	}
+	var runLit func(lit *ast.FuncLit, call *ast.CallExpr, s kit.S) []kit.S
+	runLit = func(lit *ast.FuncLit, call *ast.CallExpr, s kit.S) []kit.S {
+		lf := c.P.LitFunc(f.PkgRel(), lit)
+		if lf == nil {
+			return nil
+		}
+		for i, p := range lf.Params() {
+			if i < len(call.Args) {
+				litBind[p] = call.Args[i]
+			}
+		}
+		res := c.P.Graph(lf).Run(s, st.Client())
+		if res.Overflow {
+			c.Fatalf("R2 overflow in %s", lf.Name)
+		}
+		var out []kit.S
+		for _, e := range res.Exits {
+			out = append(out, e.State)
+		}
+		return out
+	}
+	startGo := func(gs *ast.GoStmt, s kit.S) []kit.S {
+		next := s.Set("jn", "0")
+		lit, isLit := ast.Unparen(gs.Call.Fun).(*ast.FuncLit)
+		if !isLit {
+			if f.CalleeFunc(gs.Call) != f {
+				return []kit.S{s}
+			}
+			goSeen = true
+			// go st.walker(parent, …): nothing tells the walker when it is done
+			selfCall(gs.Call, s)
+			joinBad = "`" + f.Str(gs) + "` starts the recursion without any way to wait for it"
+			if s.Get("iter") == "0" {
+				next = next.Set("iter", "1")
+			}
+			return []kit.S{next}
+		}
+		rec := false
+		for _, x := range sites {
+			for _, l := range x.lits {
+				if l.lit == lit {
+					rec = true
+				}
+			}
+		}
+		if !rec {
+			return []kit.S{s}
+		}
+		goSeen = true
+		exits := runLit(lit, gs.Call, s.Del("dn"))
+		done := ""
+		for i, z := range exits {
+			if z.Get("iter") == "0" {
+				missedIter = "the goroutine started for a parent at " + f.At(gs) + " can finish without the recursive call"
+			}
+			if d := z.Get("dn"); i == 0 || d == done {
+				done = d
+			} else {
+				done = "?"
+			}
+		}
+		switch {
+		case (done == "" || done == "?") && joinUndec != "":
+			// a WaitGroup the checker does not follow
+		case (done == "" || done == "?") && !c06OtherJoin(f):
+			joinBad = "the goroutine started at " + f.At(gs) + " never tells the walker that it is done (no (*sync.WaitGroup).Done) and nothing in " + f.Name + " waits"
+		case done == "" || done == "?":
+			joinUndec = "the goroutine started at " + f.At(gs) + " does not signal through (*sync.WaitGroup).Done on every path; other ways of waiting (channels, errgroup) are not followed"
+		case s.Get("wa:"+done) != "it" && s.Get("wa:"+done) != "pre":
+			joinBad = "no " + wgName + ".Add before the go statement at " + f.At(gs) + ": " + wgName + ".Wait() does not cover this goroutine"
+		default:
+			next = next.Set("gw", done)
+			if s.Get("wa:"+done) == "it" {
+				next = next.Set("wa:"+done, "used")
+			}
+		}
+		if s.Get("iter") == "0" {
+			next = next.Set("iter", "1")
+		}
+		return []kit.S{next}
+	}
 	st.OnCall = func(call *ast.CallExpr, n ast.Node, s kit.S) []kit.S {
 		if isPublish(call) {
 			return []kit.S{s.Set("pub", "1")}
 		}
-		if f.CalleeFunc(call) == f {
-			// args: (rangevar, other params unchanged, points)
-			params := f.Params()
-			if len(call.Args) != len(params) {
-				badSelf = "self-call has a different arity"
-				return nil
-			}
-			for i, p := range params {
-				ao := kit.ObjOf(info, call.Args[i])
-				if p == w.ancestor {
-					lp := loops[s.Get("rv")]
-					if lp == nil || !(kit.LoopElem(info, lp, call.Args[i]) || (ao != nil && kit.ElemAliases(info, lp)[ao])) {
-						badSelf = "self-call does not pass the current parent (element of the loop over the parents) as ancestor, got `" + f.Str(call.Args[i]) + "`"
-					}
-				} else if ao != p {
-					badSelf = "self-call passes `" + f.Str(call.Args[i]) + "` for parameter `" + p.Name() + "` (must be forwarded unchanged)"
+		if lit, ok := ast.Unparen(call.Fun).(*ast.FuncLit); ok {
+			// func() { … }() is part of the statement it stands in
+			return runLit(lit, call, s)
+		}
+		switch kit.QualName(kit.Callee(info, call)) {
+		case "sync.(*WaitGroup).Add":
+			if id := wgID(call); id != "" {
+				if s.Has("iter") {
+					return []kit.S{s.Set("wa:"+id, "it")}
 				}
+				// ahead of the loop: one registration for every parent
+				if lc, ok := ast.Unparen(call.Args[0]).(*ast.CallExpr); ok && len(lc.Args) == 1 {
+					if b, ok := kit.Callee(info, lc).(*types.Builtin); ok && b.Name() == "len" && upsVar != nil && kit.ObjOf(info, lc.Args[0]) == upsVar {
+						return []kit.S{s.Set("wa:"+id, "pre")}
+					}
+				}
+				joinUndec = "`" + f.Str(call) + "` ahead of the loop does not register len(parents) goroutines"
 			}
+		case "sync.(*WaitGroup).Done":
+			if id := wgID(call); id != "" {
+				return []kit.S{s.Set("dn", id)}
+			}
+		case "sync.(*WaitGroup).Wait":
+			if id := wgID(call); id != "" && s.Get("gw") == id && s.Get("jn") == "0" {
+				return []kit.S{s.Set("jn", "1")}
+			}
+		}
+		if f.CalleeFunc(call) == f {
+			selfCall(call, s)
 			if s.Get("iter") == "0" {
 				return []kit.S{s.Set("iter", "1")}
 			}
 		}
 		return nil
 	}
+	st.OnNode = func(n ast.Node, s kit.S) []kit.S {
+		switch x := n.(type) {
+		case *ast.GoStmt:
+			return startGo(x, s)
+		case *ast.DeferStmt:
+			if kit.CallIs(info, x.Call, "sync.(*WaitGroup).Done") {
+				if id := wgID(x.Call); id != "" {
+					return []kit.S{s.Set("dn", id)}
+				}
+			}
+		}
+		return []kit.S{s}
+	}
 	st.OnBranch = func(br kit.Branch, s kit.S) (t, fl []kit.S, handled bool) {
-		if br.Kind != kit.BrRange || upsVar == nil || kit.ObjOf(info, br.Range.X) != upsVar {
+		if br.Kind != kit.BrRange {
+			return nil, nil, false
+		}
+		if ok, _ := pl.ranges(br.Range); !ok {
 			return nil, nil, false
 		}
 		if s.Get("iter") == "0" {
 			missedIter = "an iteration over the parents can finish without the recursive call"
+		}
+		if s.Has("iter") && s.Get("jn") == "0" {
+			outlive = true
 		}
 		rv := strconv.Itoa(int(br.Range.Pos()))
 		loops[rv] = br.Range
@@ -741,8 +959,7 @@ func c06WalkerShape(c *kit.Ctx, m *storeModel, r2 *kit.Rule, w *walker, upf *kit
 	if res.Overflow {
 		c.Fatalf("R2 overflow in %s", f.Name)
 	}
-	nopub := ""
-	sawLoopExit := false
+	nopub, notJoined := "", ""
 	for _, e := range res.Exits {
 		// a successful return before the loop over the parents is only allowed at
 		// the top-of-tree sentinel
@@ -758,7 +975,7 @@ func c06WalkerShape(c *kit.Ctx, m *storeModel, r2 *kit.Rule, w *walker, upf *kit
 		if e.State.Has("iter") && e.Return != nil {
 			inLoop := false
 			for _, rs := range f.SliceLoops(f.Body) {
-				if upsVar != nil && kit.ObjOf(info, rs.X) == upsVar && rs.Body.Pos() <= e.Return.Pos() && e.Return.End() <= rs.Body.End() {
+				if ok, _ := pl.ranges(rs); ok && rs.Body.Pos() <= e.Return.Pos() && e.Return.End() <= rs.Body.End() {
 					inLoop = true
 				}
 			}
@@ -766,26 +983,26 @@ func c06WalkerShape(c *kit.Ctx, m *storeModel, r2 *kit.Rule, w *walker, upf *kit
 				missedIter = "the loop over the parents can be left early (break/goto) so that the remaining parents are not visited"
 			}
 		}
-		if !e.State.Has("iter") {
-			sawLoopExit = true
+		if e.State.Get("jn") == "0" {
+			at := f.Name
+			if e.Return != nil {
+				at = f.At(e.Return)
+			} else if n := len(e.Block.Nodes); n > 0 {
+				at = "the end of " + f.Name + " (" + f.At(e.Block.Nodes[n-1]) + ")"
+			}
+			notJoined = "the walker can return at " + at + " without waiting for the goroutines it started"
 		}
 	}
-	_ = sawLoopExit
 	if nopub != "" {
 		oPub.Violation("%s", nopub)
 	} else {
 		oPub.OK("publish on `%s` with the points parameter dominates every exit", f.Str(w.sprintf))
 	}
-	// the loop must exist
-	hasLoop := false
-	for _, rs := range f.SliceLoops(f.Body) {
-		if upsVar != nil && kit.ObjOf(info, rs.X) == upsVar {
-			hasLoop = true
-		}
-	}
 	switch {
-	case !hasLoop:
+	case wl.loop == nil:
 		oRec.Violation("no loop over the result of the parent lookup")
+	case outOfReach != "":
+		oRec.Undecided("%s", outOfReach)
 	case missedIter != "":
 		oRec.Violation("%s", missedIter)
 	case badSelf != "":
@@ -793,6 +1010,31 @@ func c06WalkerShape(c *kit.Ctx, m *storeModel, r2 *kit.Rule, w *walker, upf *kit
 	default:
 		oRec.OK("range over parents, unconditional self-call, parameters forwarded")
 	}
+	ancIdx := -1
+	for i, p := range f.Params() {
+		if p == w.ancestor {
+			ancIdx = i
+		}
+	}
+	if wl.loop != nil {
+		c06PerIteration(f, oIter, wl.loop, sites, ancIdx, outlive)
+	} else {
+		oIter.Undecided("no loop over the result of the parent lookup")
+	}
+	const acked = ": the walker returns, and the handler acks, while ancestors are still being notified"
+	switch {
+	case !goSeen:
+		oJoin.OK("the recursion runs in the walker's own goroutine")
+	case joinBad != "":
+		oJoin.Violation("%s%s", joinBad, acked)
+	case joinUndec != "":
+		oJoin.Undecided("%s", joinUndec)
+	case notJoined != "":
+		oJoin.Violation("%s%s", notJoined, acked)
+	default:
+		oJoin.OK("every goroutine is registered with %s.Add before it starts, calls %s.Done on every way out, and %s.Wait() precedes every return", wgName, wgName, wgName)
+	}
+	return wl
 }
 
 // c06UpTable enumerates includeDeleted x tombstone in {0,1}.
